@@ -74,7 +74,11 @@ int htp_parse_single_cookie_v0(htp_connp_t *connp, unsigned char *data, size_t l
         return HTP_ERROR;
     }
     
-    htp_table_addn(connp->in_tx->request_cookies, name, value);
+    if (htp_table_addn(connp->in_tx->request_cookies, name, value) != HTP_OK) {
+        bstr_free(name);
+        bstr_free(value);
+        return HTP_ERROR;
+    }
 
     return HTP_OK;
 }
